@@ -172,10 +172,14 @@ impl<'a> Decoder<'a> {
         // decode all values
         for _ in 0..length {
             let key = keys.pop_front().unwrap();
-            let k = key.as_str().unwrap();
+            // the key of an object must be a string.
+            let k = match key.as_str() {
+                Some(k) => k.to_string(),
+                None => return Err(Error::InvalidJsonbJEntry),
+            };
             let jentry = jentries.pop_front().unwrap();
             let value = self.decode_scalar(jentry)?;
-            obj.insert(k.to_string(), value);
+            obj.insert(k, value);
         }
 
         let value = Value::Object(obj);
